@@ -92,8 +92,11 @@ def render(tokens, rnd, layout=True, literal_spelling=True, parens=True, trailin
         if parens and ty in ("int", "decimal", "string", "boolean") and rnd.random() < 0.12:
             prev = tokens[i - 1] if i > 0 else None
             nxt = tokens[i + 1] if i + 1 < n else None
+            # not where the parenthesis would be read as a call of what stands before it: after a parenthesised literal, an identifier, ) or ]
+            # (two expressions stand side by side in `catch <value> <handler>` and `for .. in <collection> <body>`)
+            callee_before = bool(parts and parts[-1][0] == ")") or bool(prev and (prev[1] == "identifier" or (prev[1] == "interpunction" and prev[0] in (")", "]"))))
             if not (prev and prev[1] == "operator" and prev[0] in ("-", "+", "->")) and not (nxt and nxt[1] == "keyword" and nxt[0] == "def") \
-                    and not (prev and prev[1] == "keyword" and prev[0] in ("require",)):
+                    and not (prev and prev[1] == "keyword" and prev[0] in ("require",)) and not callee_before:
                 wrap = True
         if wrap:
             parts += [("(", None), (txt, i), (")", None)]
